@@ -116,6 +116,19 @@ func checkC07(c *CaseC07, fl *Fails) {
 }
 
 func sweepC07(tier string, emit func(*CaseC07)) {
+	// vertical shifts that take the index to the ends of the 64-bit range (and back): "any vertical shift that keeps the
+	// index within 64 bits"
+	for _, f := range []int64{-5, 0, 7, (1 << 35) - 1, -(1 << 35)} {
+		for _, k := range []int64{0, 1, 2, 511, 512, 513, 1023, 1024, 1025, 4096} {
+			b := ref.Box{H: 20, X: 931277, Y: 412899, V: 35, F: f}
+			up := math.MaxInt64 - k - f
+			emit(&CaseC07{Box: b, DX: 1, DY: -1, DV: up, DX2: -1, DY2: 1, DV2: -up})
+			if f <= 0 {
+				down := math.MinInt64 + k - f
+				emit(&CaseC07{Box: b, DX: 0, DY: 0, DV: down, DX2: 2, DY2: 2, DV2: -down})
+			}
+		}
+	}
 	maxH := int64(3)
 	if tier == "quick" {
 		maxH = 2
